@@ -20,6 +20,7 @@ import (
 	"go/token"
 	"io"
 	"os"
+	"os/exec"
 	"path/filepath"
 	"reflect"
 	"sort"
@@ -309,6 +310,43 @@ func evalC18(op string, args []string) string {
 	regenerated, err := opts.generator().Generate(dict)
 	if err != nil {
 		return "differs generator-refuses-the-checked-in-dictionary:" + dsErrToken(err)
+	}
+	// the tree's own command (cmd/radius-dict-gen, built by ./check next to this binary), run with the
+	// arguments of the go:generate line in the package's directory, must write the very same bytes: its
+	// flag handling (-package, -ref, -ignore, the dictionary argument) is part of "the repository's own generator"
+	if exe, err := os.Executable(); err == nil {
+		tool := filepath.Join(filepath.Dir(exe), "radius-dict-gen")
+		if _, err := os.Stat(tool); err == nil {
+			var targs []string
+			seen := false
+			for _, f := range fields {
+				if seen {
+					targs = append(targs, f)
+				}
+				if strings.HasSuffix(f, "radius-dict-gen/main.go") {
+					seen = true
+				}
+			}
+			for i := 0; i+1 < len(targs); i++ {
+				if targs[i] == "-output" || targs[i] == "--output" {
+					targs[i+1] = "-"
+				}
+			}
+			for i := range targs {
+				if strings.HasPrefix(targs[i], "-output=") || strings.HasPrefix(targs[i], "--output=") {
+					targs[i] = "-output=-"
+				}
+			}
+			cmd := exec.Command(tool, targs...)
+			cmd.Dir = dir
+			out, err := cmd.Output()
+			if err != nil {
+				return "differs the-tree's-radius-dict-gen-fails:" + dsErrToken(err)
+			}
+			if !bytes.Equal(out, regenerated) {
+				return "differs the-tree's-radius-dict-gen-writes-something-else-than-the-library-call"
+			}
+		}
 	}
 	// "the generator's output" must be ONE text: further runs (fresh Generator values, freshly parsed
 	// dictionary) give the same bytes — iteration over a Go map in the generator would show here
